@@ -1,8 +1,8 @@
 #!/verif/.venv/bin/python
 # Replay of a solver counterexample against the unmodified code (no shims).
-# property=C01 kernel=seqwf label=seqwf:scheduled_average_not_below_min_avg_amp
+# property=C01 kernel=vp label=vp:inside_is_accepted
 import sys
 sys.path[:0] = ['/repo' + "/pulser-core", '/repo' + "/pulser-simulation", "/verif"]
 from symx.replay import replay
-sys.exit(replay(check='checks.c01', kernel='seqwf', shape={'wf': 'blackman', 'd': 17, 'minavg': 16},
-                assignment={'min_avg_amp': '63/1024', 'area': '1/512', 'det': 0}, label='seqwf:scheduled_average_not_below_min_avg_amp'))
+sys.exit(replay(check='checks.c01', kernel='vp', shape={'amp': 'const', 'det': 'const', 'max_amp': True, 'max_det': True, 'minavg': True, 'grid': 7, 'n': 3},
+                assignment={'max_amp': '0/1', 'max_det': 93676, 'min_avg_amp': '0/1', 'dur': 1, 'amp.v': '0/1', 'det.v': -93675}, label='vp:inside_is_accepted'))
